@@ -378,6 +378,8 @@ pub fn generate(property: &str, tier: &str, seed: u64, index: u64) -> Plan {
             _ => starve(s1(property, "s1-allwindows", seed, &S1Opts { mp_choices: ALL_WINDOWS, max_peers: 3, ..Default::default() }), seed),
         },
         "C05" => c05(property, tier, seed, index),
+        "C07" => c07(property, seed),
+        "C12" => c12(property, seed, index),
         "C13" => match index % 8 {
             0 => synctest(property, seed, false, true),
             1..=3 => synctest(property, seed, false, false),
@@ -483,7 +485,7 @@ fn c05_base_plan(property: &str, seed: u64, b: (u8, usize, usize, bool)) -> Plan
         horizon_us: deadline,
         mode: Mode::Net,
         random_faults_until_us: Some(0),
-        oracle: OracleCfg { liveness: Some(Liveness { heal_us: heal, deadline_us: deadline, min_frames: 5 }), no_disconnect_events: true, ..Default::default() },
+        oracle: OracleCfg { liveness: Some(Liveness { heal_us: heal, deadline_us: deadline, min_frames: 5, require_running: true, nodes: Vec::new(), spectator_lag: true }), no_disconnect_events: true, ..Default::default() },
     }
 }
 
@@ -701,7 +703,7 @@ fn c05_search(property: &str, seed: u64) -> Plan {
     let heal = last_end + 2 * max_lat + ms(300);
     p.random_faults_until_us = Some(last_end);
     p.horizon_us = heal + ms(3000);
-    p.oracle.liveness = Some(Liveness { heal_us: heal, deadline_us: heal + ms(3000), min_frames: 5 });
+    p.oracle.liveness = Some(Liveness { heal_us: heal, deadline_us: heal + ms(3000), min_frames: 5, require_running: true, nodes: Vec::new(), spectator_lag: true });
     p.oracle.no_disconnect_events = true;
     p
 }
@@ -730,5 +732,227 @@ pub fn c05(property: &str, tier: &str, seed: u64, index: u64) -> Plan {
         c05_random_pair(property, seed)
     } else {
         c05_search(property, seed)
+    }
+}
+
+// ------------------------------------------------------------------ C07 / C12
+
+fn two_peer_base(property: &str, scenario: &str, seed: u64, c: &Ch, allow_spectator: bool) -> Plan {
+    let k0 = if c.chance(&[100], 350_000) { 2 } else { 1 };
+    let k1 = if c.chance(&[101], 350_000) { 2 } else { 1 };
+    let np = k0 + k1;
+    let fps = 60usize;
+    let mut nodes = vec![
+        NodeSpec { kind: NodeKind::Peer { locals: (0..k0).collect() }, tick: TickSpec::default(), wall_offset_ms: c.range(&[102], 1_000_000, 2_000_000_000_000), drain: true },
+        NodeSpec { kind: NodeKind::Peer { locals: (k0..np).collect() }, tick: TickSpec::default(), wall_offset_ms: c.range(&[103], 1_000_000, 2_000_000_000_000), drain: true },
+    ];
+    if allow_spectator && c.chance(&[104], 300_000) {
+        nodes.push(NodeSpec {
+            kind: NodeKind::Spectator { host: 0, max_frames_behind: *c.pick(&[105], &[5usize, 10, 30]), catchup_speed: *c.pick(&[106], &[1usize, 2, 8]) },
+            tick: TickSpec::default(),
+            wall_offset_ms: 77,
+            drain: true,
+        });
+    }
+    for (i, n) in nodes.iter_mut().enumerate() {
+        n.tick = TickSpec {
+            start_us: c.range(&[107, i as u64], 0, ms(40)),
+            period_us: 16_666,
+            jitter_us: *c.pick(&[108, i as u64], &[0u64, 0, 2000, 8000]),
+            prepoll_ppm: *c.pick(&[109, i as u64], &[0u32, 500_000, 1_000_000]),
+            ..Default::default()
+        };
+    }
+    let mut links = Vec::new();
+    for a in 0..nodes.len() {
+        for b in 0..nodes.len() {
+            let ok = a != b && (a < 2 && b < 2 || a == 0 && b == 2 || a == 2 && b == 0);
+            if ok {
+                let base = ms(*c.pick(&[110, a as u64, b as u64], &[0u64, 1, 5, 10, 20, 40, 80]));
+                links.push(LinkSpec { from: a, to: b, base_us: base, jitter_us: base * c.range(&[111, a as u64, b as u64], 0, 80) / 100, loss_ppm: 0, dup_ppm: 0 });
+            }
+        }
+    }
+    let mp = *c.pick(&[112], ALL_WINDOWS);
+    Plan {
+        property: property.to_owned(),
+        scenario: scenario.to_owned(),
+        seed,
+        cfg: RunCfg {
+            num_players: np,
+            max_prediction: mp,
+            input_delay: *c.pick(&[113], &[0usize, 0, 1, 2, 4]),
+            sparse: c.chance(&[114], 500_000),
+            desync_interval: 0,
+            fps,
+            timeout_ms: 2000,
+            notify_ms: 500,
+            predict_default: c.chance(&[115], 250_000),
+            input_mode: match c.range(&[116], 0, 3) {
+                0 => InputMode::Unique,
+                1 => InputMode::Held(c.range(&[117], 2, 20) as u32),
+                2 => InputMode::MostlyDefault(6),
+                _ => InputMode::PerAttempt,
+            },
+            hash_seed: mix(seed ^ 0x4a5),
+            hash_per_map: c.chance(&[118], 300_000),
+            rng_seed: mix(seed ^ 0x77),
+            clock_bump_us: 0,
+        },
+        nodes,
+        links,
+        windows: Vec::new(),
+        pkt_faults: Vec::new(),
+        api: Vec::new(),
+        injects: Vec::new(),
+        perturb: Vec::new(),
+        horizon_us: ms(5000),
+        mode: Mode::Net,
+        random_faults_until_us: None,
+        oracle: OracleCfg::default(),
+    }
+}
+
+/// C07: two peers, the remote dies (or is disconnected through the API) at a seeded instant.
+pub fn c07(property: &str, seed: u64) -> Plan {
+    let c = Ch::new(seed, "c07");
+    let mut p = two_peer_base(property, "c07-kill", seed, &c, true);
+    // node 0 survives (it hosts the spectator), node 1 is the victim
+    p.cfg.timeout_ms = c.range(&[1], 300, 3000);
+    p.cfg.notify_ms = c.range(&[2], 100, 800).min(p.cfg.timeout_ms - 50);
+    p.nodes[0].tick.period_us = ms(c.range(&[3], 4, 40));
+    p.nodes[0].tick.jitter_us = *c.pick(&[4], &[0u64, 0, 1000, 5000]);
+    for l in p.links.iter_mut() {
+        l.loss_ppm = *c.pick(&[5, l.from as u64, l.to as u64], &[0u32, 0, 20_000, 100_000]);
+        l.dup_ppm = *c.pick(&[6, l.from as u64, l.to as u64], &[0u32, 0, 50_000]);
+    }
+    let t_kill = if c.chance(&[7], 250_000) { c.range(&[8], 0, ms(600)) } else { c.range(&[9], ms(600), ms(4000)) };
+    let max_lat = p.links.iter().map(|l| l.base_us + l.jitter_us).max().unwrap_or(0);
+    if c.chance(&[10], 300_000) {
+        // explicit disconnect_player on one of the victim's handles instead of a death
+        let handle = match &p.nodes[1].kind {
+            NodeKind::Peer { locals } => locals[c.range(&[11], 0, locals.len() as u64 - 1) as usize],
+            _ => unreachable!(),
+        };
+        p.api.push(ApiCall { node: 0, at_us: t_kill.max(ms(300)), call: Api::Disconnect { handle } });
+        p.scenario = "c07-disconnect-player".into();
+    } else {
+        p.nodes[1].tick.stop_us = Some(t_kill);
+        // some of its last packets never arrive
+        if c.chance(&[12], 500_000) {
+            let back = c.range(&[13], 0, ms(150));
+            p.windows.push(Window { from: 1, to: 0, start_us: t_kill.saturating_sub(back), end_us: t_kill + ms(10), kinds: ALL_KINDS, action: WinAction::Drop });
+        }
+        // the survivor may be stalled (paused) around the death
+        if c.chance(&[14], 200_000) {
+            let a = t_kill.saturating_sub(c.range(&[15], 0, ms(200)));
+            p.nodes[0].tick.pauses.push((a, a + c.range(&[16], ms(50), ms(p.cfg.timeout_ms + 300))));
+        }
+    }
+    // the survivor's timers start at its last poll that received something: after a pause that is the pause's end
+    let pause_end = p.nodes[0].tick.pauses.iter().map(|x| x.1).max().unwrap_or(0);
+    let heal = t_kill.max(pause_end) + ms(p.cfg.timeout_ms) + max_lat + ms(700);
+    p.horizon_us = heal + ms(2000);
+    p.oracle.lifecycle_timing = true;
+    // the statement is about the survivor (and its spectators); a spectator can only keep up if it
+    // ticks at least as fast as its host or catches up faster than it falls behind
+    let host_period = p.nodes[0].tick.period_us;
+    let live = vec![0];
+    for (i, n) in p.nodes.iter_mut().enumerate() {
+        if let NodeKind::Spectator { catchup_speed, max_frames_behind, .. } = &mut n.kind {
+            *catchup_speed = 8;
+            *max_frames_behind = 5;
+            n.tick.period_us = n.tick.period_us.min(host_period);
+            let _ = i;
+        }
+    }
+    p.oracle.liveness = Some(Liveness { heal_us: heal, deadline_us: heal + ms(2000), min_frames: 8, require_running: false, nodes: live, spectator_lag: false });
+    p
+}
+
+/// C12: handshakes under loss/duplication/reordering, irregular poll cadences, silences around
+/// the notify delay and the timeout, never-drained events, stray replies, the quiet pair.
+pub fn c12(property: &str, seed: u64, index: u64) -> Plan {
+    let c = Ch::new(seed, "c12");
+    match index % 10 {
+        0 => {
+            // quiet pair: two sessions that merely poll, default timeouts, healthy link, 60 s
+            let mut p = two_peer_base(property, "c12-quiet-pair", seed, &c, false);
+            for n in p.nodes.iter_mut() {
+                n.tick.poll_only = true;
+                n.tick.period_us = ms(c.range(&[1, n.wall_offset_ms], 1, 50));
+                n.tick.jitter_us = n.tick.period_us / 4;
+            }
+            for l in p.links.iter_mut() {
+                l.base_us = l.base_us.min(ms(70));
+                l.jitter_us = l.jitter_us.min(ms(30));
+            }
+            p.horizon_us = ms(60_000);
+            p.oracle.no_interrupted_events = true;
+            p.oracle.no_disconnect_events = true;
+            p.oracle.lifecycle_timing = true;
+            p
+        }
+        1..=3 => {
+            // silences of every length around the notify delay and the timeout
+            let mut p = two_peer_base(property, "c12-silences", seed, &c, true);
+            p.cfg.timeout_ms = *c.pick(&[2], &[2000u64, 2000, 1000, 3000]);
+            p.cfg.notify_ms = *c.pick(&[3], &[500u64, 500, 200, 900]).min(&(p.cfg.timeout_ms - 100));
+            for n in p.nodes.iter_mut() {
+                n.tick.period_us = ms(c.range(&[4, n.wall_offset_ms], 1, 100));
+                n.tick.jitter_us = n.tick.period_us / 2;
+                n.drain = true;
+            }
+            let nw = c.range(&[5], 1, 3);
+            let mut t = ms(c.range(&[6], 800, 1500));
+            for j in 0..nw {
+                let target = if c.chance(&[7, j], 500_000) { p.cfg.notify_ms } else { p.cfg.timeout_ms };
+                let d = ms((target as i64 + c.range(&[8, j], 0, 400) as i64 - 200).max(20) as u64);
+                let both = c.chance(&[9, j], 600_000);
+                p.windows.push(Window { from: 1, to: 0, start_us: t, end_us: t + d, kinds: ALL_KINDS, action: WinAction::Drop });
+                if both {
+                    p.windows.push(Window { from: 0, to: 1, start_us: t, end_us: t + d, kinds: ALL_KINDS, action: WinAction::Drop });
+                }
+                t += d + ms(c.range(&[10, j], 300, 1500));
+            }
+            p.horizon_us = t + ms(1500);
+            p.oracle.lifecycle_timing = true;
+            p
+        }
+        _ => {
+            // handshake stress
+            let mut p = s1(property, "c12-handshake", seed, &S1Opts { faults: false, max_peers: 3, frames_lo: 60, frames_hi: 300, long_run_pct: 0, ..Default::default() });
+            p.cfg.timeout_ms = 20_000;
+            p.cfg.notify_ms = 5_000;
+            for (i, n) in p.nodes.iter_mut().enumerate() {
+                n.tick.period_us = ms(c.range(&[11, i as u64], 1, 400));
+                n.tick.jitter_us = n.tick.period_us;
+                n.tick.pauses.clear();
+                if c.chance(&[12, i as u64], 250_000) {
+                    n.tick.poll_period_us = ms(c.range(&[13, i as u64], 1, 30));
+                }
+                n.drain = !c.chance(&[14, i as u64], 200_000);
+            }
+            for l in p.links.iter_mut() {
+                l.base_us = ms(*c.pick(&[15, l.from as u64, l.to as u64], &[0u64, 5, 20, 80, 150, 300]));
+                l.jitter_us = l.base_us;
+                l.loss_ppm = *c.pick(&[16, l.from as u64, l.to as u64], &[0u32, 50_000, 200_000, 400_000]);
+                l.dup_ppm = *c.pick(&[17, l.from as u64, l.to as u64], &[0u32, 50_000, 200_000]);
+            }
+            // stray replies: a nonce that was never sent, from the right address and from a stranger
+            let n = p.nodes.len();
+            for j in 0..c.range(&[18], 0, 6) {
+                let to = c.range(&[19, j], 0, n as u64 - 1) as usize;
+                let from = if c.chance(&[20, j], 200_000) { 1000 + j as u16 } else { ((to + 1 + c.range(&[21, j], 0, n as u64 - 2) as usize) % n) as u16 };
+                p.injects.push(Inject {
+                    at_us: c.range(&[22, j], 0, ms(2500)),
+                    to,
+                    from_addr: from,
+                    payload: Payload::Msg { magic: *c.pick(&[23, j], &[MagicSel::Real, MagicSel::Wrong, MagicSel::Zero]), body: MBody::SyncReply { random_reply: c.u(&[24, j]) as u32 } },
+                });
+            }
+            p.horizon_us = ms(c.range(&[25], 3000, 9000));
+            p
+        }
     }
 }
